@@ -167,7 +167,7 @@ GEO_INPUTS = {
     # names that are a strict prefix of another parameter line of the base inputs ('Inflation Rate During Construction',
     # 'Reservoir Volume Option'): whatever the driver does to build an iteration's input must not confuse the two
     'Inflation Rate': dict(ok=[('uniform', 0.01, 0.04), ('triangular', 0.015, 0.025, 0.035)], edge=[('uniform', 0.9, 1.1)]),
-    'Reservoir Volume': dict(ok=[('uniform', 5e8, 2e9), ('lognormal', 20.7, 0.1)], edge=[]),
+    'Reservoir Volume': dict(ok=[('uniform', 5e8, 2e9), ('lognormal', 20.7, 0.1), ('normal', 1e9, 5e7)], edge=[]),
 }
 
 GEO_OUTPUTS = [
